@@ -1,0 +1,197 @@
+//! Verification hooks. Compiled only with `--cfg rust_ndarray_ndarray_stats_verif`;
+//! with the guard off this module does not exist and the crate is unchanged.
+//!
+//! * `choose_pivot` stands in for `thread_rng().gen_range(0..n)`: under Kani it
+//!   returns an arbitrary value satisfying `gen_range`'s contract (panic on an
+//!   empty range, otherwise any `p < n`), natively it draws from `thread_rng`.
+//! * `select_cut` / `bulk_cut` replace *recursive* calls of the two selection
+//!   routines by their contract (used to verify one inductive step).
+//! * `ModelMap` is a reference model of `indexmap::IndexMap` (insertion order,
+//!   lookup by key) swapped in by `--cfg rust_ndarray_ndarray_stats_verif_modelmap`.
+
+/// Stand-in for `thread_rng().gen_range(0..n)`.
+pub fn choose_pivot(n: usize) -> usize {
+    assert!(n > 0, "cannot sample empty range");
+    #[cfg(kani)]
+    {
+        let p: usize = kani::any();
+        kani::assume(p < n);
+        p
+    }
+    #[cfg(not(kani))]
+    {
+        use rand::Rng;
+        rand::thread_rng().gen_range(0..n)
+    }
+}
+
+/// Reference model of `indexmap::IndexMap`: insertion-ordered, lookup by key,
+/// a repeated key overwrites the value and keeps its position.
+#[derive(Clone, Debug)]
+pub struct ModelMap<K, V> {
+    entries: Vec<(K, V)>,
+}
+
+impl<K: PartialEq, V> ModelMap<K, V> {
+    pub fn new() -> Self {
+        ModelMap {
+            entries: Vec::with_capacity(8),
+        }
+    }
+    pub fn len(&self) -> usize {
+        self.entries.len()
+    }
+    pub fn is_empty(&self) -> bool {
+        self.entries.is_empty()
+    }
+    pub fn get(&self, k: &K) -> Option<&V> {
+        self.entries.iter().find(|e| e.0 == *k).map(|e| &e.1)
+    }
+    pub fn iter(&self) -> impl Iterator<Item = (&K, &V)> {
+        self.entries.iter().map(|e| (&e.0, &e.1))
+    }
+    pub fn insert(&mut self, k: K, v: V) -> Option<V> {
+        for e in self.entries.iter_mut() {
+            if e.0 == k {
+                return Some(std::mem::replace(&mut e.1, v));
+            }
+        }
+        self.entries.push((k, v));
+        None
+    }
+}
+
+impl<K: PartialEq, V> std::iter::FromIterator<(K, V)> for ModelMap<K, V> {
+    fn from_iter<I: IntoIterator<Item = (K, V)>>(it: I) -> Self {
+        let mut m = ModelMap::new();
+        for (k, v) in it {
+            m.insert(k, v);
+        }
+        m
+    }
+}
+
+impl<K: PartialEq, V> std::ops::Index<&K> for ModelMap<K, V> {
+    type Output = V;
+    fn index(&self, k: &K) -> &V {
+        self.get(k).expect("ModelMap: key not found")
+    }
+}
+
+impl<K, V> IntoIterator for ModelMap<K, V> {
+    type Item = (K, V);
+    type IntoIter = std::vec::IntoIter<(K, V)>;
+    fn into_iter(self) -> Self::IntoIter {
+        self.entries.into_iter()
+    }
+}
+
+/// Number of (single / bulk) selection calls that run their real body before
+/// every further call is replaced by the routine's contract. `usize::MAX`
+/// (the default) means "never cut".
+pub static mut SELECT_CUT_AFTER: usize = usize::MAX;
+pub static mut BULK_CUT_AFTER: usize = usize::MAX;
+pub static mut SELECT_CALLS: usize = 0;
+pub static mut BULK_CALLS: usize = 0;
+
+/// Fisher-Yates with symbolic choices: reaches every permutation of the view
+/// using swaps only.
+#[cfg(kani)]
+fn havoc_permute<A>(array: &mut ndarray::ArrayViewMut1<'_, A>) {
+    let n = array.len();
+    let mut t = 0;
+    while t + 1 < n {
+        let s: usize = kani::any();
+        kani::assume(s >= t && s < n);
+        array.swap(t, s);
+        t += 1;
+    }
+}
+
+/// Some element of `array` that a full sort would place at position `rank`.
+#[cfg(kani)]
+fn pick_rank<A: Ord + Clone>(array: &ndarray::ArrayViewMut1<'_, A>, rank: usize) -> A {
+    let n = array.len();
+    let s: usize = kani::any();
+    kani::assume(s < n);
+    let r = array[s].clone();
+    let mut lt = 0usize;
+    let mut le = 0usize;
+    for e in array.iter() {
+        if *e < r {
+            lt += 1;
+        }
+        if *e <= r {
+            le += 1;
+        }
+    }
+    kani::assume(lt <= rank && rank < le);
+    r
+}
+
+/// Contract of bulk selection. Precondition (asserted): `indexes` strictly
+/// increasing and in bounds. Postcondition (assumed): the lane is some
+/// permutation of itself, `values[k]` is the element of rank `indexes[k]`,
+/// `indexes` holds arbitrary values (it is documented scratch space).
+#[cfg(kani)]
+pub fn bulk_cut<A: Ord + Clone>(
+    array: &mut ndarray::ArrayViewMut1<'_, A>,
+    indexes: &mut [usize],
+    values: &mut [A],
+) -> bool {
+    unsafe {
+        let c = BULK_CALLS;
+        BULK_CALLS += 1;
+        if c < BULK_CUT_AFTER {
+            return false;
+        }
+    }
+    let n = array.len();
+    assert!(indexes.len() == values.len(), "contract precondition: one value slot per index");
+    let mut k = 0;
+    while k < indexes.len() {
+        assert!(indexes[k] < n, "contract precondition: index in bounds");
+        if k > 0 {
+            assert!(
+                indexes[k - 1] < indexes[k],
+                "contract precondition: indexes strictly increasing"
+            );
+        }
+        values[k] = pick_rank(array, indexes[k]);
+        k += 1;
+    }
+    for x in indexes.iter_mut() {
+        *x = kani::any();
+    }
+    havoc_permute(array);
+    true
+}
+
+/// Contract of single selection. Precondition (asserted): `i` in bounds.
+/// Postcondition (assumed): the lane is some permutation of itself with every
+/// element before `i` `<=` the result and every element from `i` on `>=` it;
+/// the result has rank `i`.
+#[cfg(kani)]
+pub fn select_cut<A: Ord + Clone>(array: &mut ndarray::ArrayViewMut1<'_, A>, i: usize) -> Option<A> {
+    unsafe {
+        let c = SELECT_CALLS;
+        SELECT_CALLS += 1;
+        if c < SELECT_CUT_AFTER {
+            return None;
+        }
+    }
+    let n = array.len();
+    assert!(i < n, "contract precondition: index in bounds");
+    let r = pick_rank(array, i);
+    havoc_permute(array);
+    let mut t = 0;
+    for e in array.iter() {
+        if t < i {
+            kani::assume(*e <= r);
+        } else {
+            kani::assume(*e >= r);
+        }
+        t += 1;
+    }
+    Some(r)
+}
